@@ -24,7 +24,10 @@ def prepare(ctx):
 
 def stages(ctx):
     packs = pc.mixed_packs(ctx.quick, size=16)
-    return [("all-targets", [{"pack": p} for p in (packs[::4] if ctx.quick else packs)])]
+    if ctx.quick:
+        return [("all-targets", [{"pack": p} for p in packs[::4]])]
+    # thorough: the full catalogue in four disjoint quarters (increasing bounds), so that a deadline leaves completed bounds
+    return [("all-targets(packs %d mod 4)" % k, [{"pack": p} for p in packs[k::4]]) for k in range(4)]
 
 
 def _sections(out):
